@@ -5,7 +5,7 @@ from harness import lts_check
 from vlib import paths
 ID = 'C03'
 RUNNER = 'LTS'
-COQ_ROOTS = ['Props/C03.v', 'GenProps/Session_consts.v']
+COQ_ROOTS = ['Props/C03.v', 'Props/E2E.v', 'GenProps/Session_consts.v']
 RULE = ('A case is (scenario, schedule): client programs (sync/async requests, take_notification, await-disconnect), a scripted '
         'server (replies in any order, duplicates, unknown/missing ids, notifications, unknown messages, EOF/error) and the list of '
         'scheduler decisions at every synchronisation point (lock acquire, event set/wait, queue put/get, connected read, '
@@ -14,7 +14,7 @@ RULE = ('A case is (scenario, schedule): client programs (sync/async requests, t
 ASSUMES = ['CPython executes the code between two instrumented synchronisation points atomically with respect to the other managed threads (GIL + cooperative scheduler)',
            'uuid4 message-ids are unique (fresh-id oracle of the LTS; a trace violating it is rejected by the model)',
            'threading.Event/Lock/queue.Queue/selectors behave as the instrumented stand-ins (tools/harness/sched.py)']
-TRUSTED = ['modelled, not verified: threading, queue, selectors, the in-memory transport; framing is covered by C01/C02',
+TRUSTED = ['modelled, not verified: threading, queue, selectors, the in-memory transport; inbound framing is composed with the LTS (Props/E2E.v, byte-level replay of the recorded reads by tools/harness/e2e_check.py; the concrete classifier of message texts Model/Classify.v is a scanner, the theorems hold for every classifier), outbound framing is C02',
            'tools/harness/sched.py, lts.py, lts_check.py (scheduler, effect log -> label mapping, oracles)']
 
 def _corpus():
